@@ -112,24 +112,58 @@ def prepare(E):
     sd.globals['BrownianInterval'] = I.ExternFunc('BrownianInterval', bi)
     tensor.STATE['pinverse'] = lambda x: XT(np.full((x.a.shape[0], x.a.shape[2], x.a.shape[1]), Fraction(1), dtype=object))
     E.externs['torch'].attrs['randn'] = I.ExternFunc('torch.randn', lambda *s, **k: XT(np.full(tuple(s), Fraction(0), dtype=object)))
+    E.externs['torch'].attrs['allclose'] = I.ExternFunc('torch.allclose', lambda a, b, **k: all(x == y for x, y in zip(a.a.reshape(-1), b.a.reshape(-1))))
+    XT.m_round = lambda self: self._new(np.vectorize(lambda x: Fraction(round(x)), otypes=[object])(self.a))
     return captured
 
 
-def front_half(E, cx, sde, y0, ts, bm, method, adaptive=False, options=None, names=None, logqp=False, dt=Fraction(1, 10)):
-    """The part of sdeint that runs before integrate(): returns ('ok', solver, (sde, y0, ts, bm, method)) or ('raise', exc)."""
-    sd = E.module(M_SDEINT)
-    misc = E.module('torchsde._core.misc')
+class Reached(Exception):
+    """Raised by the stand-in for BaseSDESolver.integrate: everything that runs before integration has run."""
+
+    def __init__(self, solver, y0, ts, extra0):
+        self.solver, self.y0, self.ts, self.extra0 = solver, y0, ts, extra0
+
+
+class IntegrateStub:
+    qualname = 'torchsde._core.base_solver.BaseSDESolver.integrate'
+
+    def apply(self, E, cx, a, lineno):
+        raise Reached(a['self'], a['y0'], a['ts'], a['extra0'])
+
+
+def front_half(E, cx, sde, y0, ts, bm, method, adaptive=False, options=None, names=None, logqp=False, dt=Fraction(1, 10), entry='sdeint',
+               extra_kwargs=None):
+    """Run the real entry point (sdeint or sdeint_adjoint) up to the call of solver.integrate, which is intercepted.
+    Returns ('ok', solver, (sde, y0, ts, bm, method)) when integration is reached, or ('raise', exc, None)."""
+    E.contracts[IntegrateStub.qualname] = IntegrateStub()
     methods = E.module('torchsde._core.methods')
+    real_select = methods.globals.get('$real_select') or methods.globals['select']
+    methods.globals['$real_select'] = real_select
+    chosen = []
+
+    def select(**kw):
+        chosen.append(kw.get('method'))
+        return E.call(real_select, [], kw, cx, 0)
+    methods.globals['select'] = I.ExternFunc('methods.select', select)
+    if entry == 'sdeint':
+        fn = E.module(M_SDEINT).globals['sdeint']
+    else:
+        fn = E.module('torchsde._core.adjoint').globals['sdeint_adjoint']
+    kw = dict(bm=bm, method=method, dt=dt, adaptive=adaptive, rtol=Fraction(1, 1000), atol=Fraction(1, 1000), dt_min=Fraction(1, 10000),
+              options=options, names=names, logqp=logqp)
+    if entry != 'sdeint':
+        kw['adjoint_params'] = ()
+    kw.update(extra_kwargs or {})
     try:
-        r = E.call(sd.globals['check_contract'], [sde, y0, ts, bm, method, adaptive, options, names, logqp], {}, cx, 0)
-        sde2, y02, ts2, bm2, method2, options2 = r
-        E.call(misc.globals['assert_no_grad'], [['ts', 'dt'], [ts2, dt]], {}, cx, 0)
-        cls = E.call(methods.globals['select'], [], {'method': method2, 'sde_type': E.get_attr(sde2, 'sde_type', cx, 0)}, cx, 0)
-        solver = E.instantiate(cls, [], dict(sde=sde2, bm=bm2, dt=dt, adaptive=adaptive, rtol=Fraction(1, 1000), atol=Fraction(1, 1000),
-                                             dt_min=Fraction(1, 10000), options=options2), cx, 0)
-        return ('ok', solver, (sde2, y02, ts2, bm2, method2))
+        E.call(fn, [sde, y0, ts], kw, cx, 0)
+    except Reached as r:
+        sv = r.solver
+        return ('ok', sv, (sv.fields.get('sde'), r.y0, r.ts, sv.fields.get('bm'), chosen[0] if chosen else None))
     except PyExc as e:
         return ('raise', e, None)
+    finally:
+        methods.globals['select'] = real_select
+    return ('raise', PyExc('AssertionError', 'entry point returned without integrating', 0), None)
 
 
 def user_sde(sde_type, noise, B, d, m, have=('f', 'g'), extra=None):
@@ -154,9 +188,12 @@ def job_forward_matrix(E, rep, tier):
                        'torchsde._core.methods.reversible_heun.AdjointReversibleHeun.__init__', 'torchsde._core.misc.assert_no_grad',
                        'torchsde._core.misc.is_strictly_increasing')
     captured = prepare(E)
+    from props import adj_common as AC
+    AC.install_function_apply(E)
     B, d = 2, 3
     cells = 0
-    for sde_type, noise, method, bm_levy, adaptive, logqp in itertools.product(SDE_TYPES, NOISES, METHODS + [None], LEVIES + [None], (False, True), (False, True)):
+    for entry, sde_type, noise, method, bm_levy, adaptive, logqp in itertools.product(('sdeint', 'sdeint_adjoint'), SDE_TYPES, NOISES, METHODS + [None], LEVIES + [None],
+                                                                                     (False, True), (False, True)):
         m = d if noise == 'diagonal' else (1 if noise == 'scalar' else 2)
         cx = Ctx(E, [])
         have = ('f', 'g', 'h') if logqp else ('f', 'g')
@@ -164,11 +201,11 @@ def job_forward_matrix(E, rep, tier):
         m_bm = (d + 1 if noise == 'diagonal' else m) if logqp else m
         bm = BMStub((B, m_bm), bm_levy) if bm_levy is not None else None
         del captured[:]
-        out = front_half(E, cx, sde, y0_ok(B, d), ts_ok(), bm, method, adaptive=adaptive, logqp=logqp)
+        out = front_half(E, cx, sde, y0_ok(B, d), ts_ok(), bm, method, adaptive=adaptive, logqp=logqp, entry=entry)
         eff_method = method if method is not None else default_method(sde_type, noise)
         eff_levy = bm_levy if bm_levy is not None else default_levy(eff_method)
         want_ok = documented(sde_type, noise, eff_method, eff_levy)
-        tag = f'C19/forward[{sde_type},{noise},method={method},bm={bm_levy},adaptive={adaptive},logqp={logqp}]'
+        tag = f'C19/forward{"" if entry == "sdeint" else "(sdeint_adjoint)"}[{sde_type},{noise},method={method},bm={bm_levy},adaptive={adaptive},logqp={logqp}]'
         cells += 1
         if out[0] == 'ok':
             ok = want_ok
@@ -201,14 +238,21 @@ def job_malformed(E, rep, tier):
     prepare(E)
     B, d, m = 2, 3, 2
 
-    def expect_value_error(name, **kw):
-        cx = Ctx(E, [])
-        args = dict(sde=user_sde('ito', 'general', B, d, m), y0=y0_ok(B, d), ts=ts_ok(), bm=BMStub((B, m), 'none'), method='euler')
-        args.update(kw)
-        out = front_half(E, cx, args['sde'], args['y0'], args['ts'], args['bm'], args['method'], names=args.get('names'), dt=args.get('dt', Fraction(1, 10)))
-        ok = out[0] == 'raise' and out[1].cls == 'ValueError'
-        rep.add(f'C19/malformed/{name}/raises.ValueError', 'raises', 'discharged' if ok else 'refuted', 'pyvc-exec',
-                model=None if ok else {'outcome': 'accepted' if out[0] == 'ok' else f'{out[1].cls}: {out[1].msg}'})
+    from props import adj_common as AC
+    AC.install_function_apply(E)
+
+    def expect_value_error(name, only_entry=None, extra_kwargs=None, **kw):
+        for entry in ('sdeint', 'sdeint_adjoint'):
+            if only_entry and entry != only_entry:
+                continue
+            cx = Ctx(E, [])
+            args = dict(sde=user_sde('ito', 'general', B, d, m), y0=y0_ok(B, d), ts=ts_ok(), bm=BMStub((B, m), 'none'), method='euler')
+            args.update(kw)
+            out = front_half(E, cx, args['sde'], args['y0'], args['ts'], args['bm'], args['method'], names=args.get('names'), dt=args.get('dt', Fraction(1, 10)),
+                             entry=entry, extra_kwargs=extra_kwargs)
+            ok = out[0] == 'raise' and out[1].cls == 'ValueError'
+            rep.add(f'C19/malformed{"" if entry == "sdeint" else "(sdeint_adjoint)"}/{name}/raises.ValueError', 'raises', 'discharged' if ok else 'refuted', 'pyvc-exec',
+                    model=None if ok else {'outcome': 'accepted' if out[0] == 'ok' else f'{out[1].cls}: {out[1].msg}'})
     T = lambda *v: XT(np.array([Fraction(x) for x in v], dtype=object))
     expect_value_error('ts-not-strictly-increasing(equal)', ts=T(0, Fraction(1, 2), Fraction(1, 2)))
     expect_value_error('ts-decreasing', ts=T(0, 1, Fraction(1, 2)))
@@ -242,6 +286,15 @@ def job_malformed(E, rep, tier):
     dtg = XT(np.array(Fraction(1, 10), dtype=object).reshape(()))
     dtg.rg = True
     expect_value_error('dt-requires-grad', dt=dtg)
+    for nm in ('rtol', 'atol', 'dt_min'):
+        tg = XT(np.array(Fraction(1, 1000), dtype=object).reshape(()))
+        tg.rg = True
+        expect_value_error(f'{nm}-requires-grad', extra_kwargs={nm: tg})
+    for nm in ('adjoint_rtol', 'adjoint_atol'):
+        tg = XT(np.array(Fraction(1, 1000), dtype=object).reshape(()))
+        tg.rg = True
+        expect_value_error(f'{nm}-requires-grad', only_entry='sdeint_adjoint', extra_kwargs={nm: tg})
+    expect_value_error('adjoint_params-None-for-an-sde-that-is-not-an-nn.Module', only_entry='sdeint_adjoint', extra_kwargs={'adjoint_params': None})
     # positive controls: well-formed variants are accepted
     for name, kw in (('list-ts', dict(ts=[0, Fraction(1, 2), 1])), ('tuple-ts', dict(ts=(0, 1))), ('bm-None', dict(bm=None)),
                      ('names', dict(sde=H.make_user_sde('general', 'ito', {'foo': ShapeFn('f', B, d, m, 'general'), 'g': ShapeFn('g', B, d, m, 'general')}),
@@ -368,13 +421,16 @@ def native_replay(ob):
     import re
     from props.base import run_native
     name = ob['name']
-    m = re.match(r'C19/forward\[(\w+),(\w+),method=(\w+),bm=([\w-]+),adaptive=(\w+),logqp=(\w+)\]', name)
+    m = re.match(r'C19/forward(?:\(sdeint_adjoint\))?\[(\w+),(\w+),method=(\w+),bm=([\w-]+),adaptive=(\w+),logqp=(\w+)\]', name)
     if m:
         st, noise, method, bm, ad, lq = m.groups()
         eff_m = method if method != 'None' else default_method(st, noise)
         eff_l = bm if bm != 'None' else default_levy(eff_m)
         return run_native('c19', dict(sde_type=st, noise=noise, method=method, bm=bm, adaptive=ad == 'True', logqp=lq == 'True',
-                                      documented=documented(st, noise, eff_m, eff_l)))
+                                      documented=documented(st, noise, eff_m, eff_l), entry='sdeint_adjoint' if '(sdeint_adjoint)' in name else 'sdeint'))
+    m = re.match(r'C19/malformed(\(sdeint_adjoint\))?/(\w+)-requires-grad/', name)
+    if m:
+        return run_native('c19grad', {'entry': 'sdeint_adjoint' if m.group(1) else 'sdeint', 'which': m.group(2)})
     m = re.match(r'C19/adjoint-explicit-choice-is-used\[(\w+),(\w+),method=(\w+),adjoint_method=(\w+)\]', name)
     if m:
         st, noise, fm, am = m.groups()
